@@ -655,6 +655,12 @@ func (f *Frame) lookupVarAt(name string, b *ssa.BasicBlock, st *State) (TV, bool
 
 // lookupVarFrom scans block d (wholly) and then its dominators.
 func (f *Frame) lookupVarFrom(name string, d0 *ssa.BasicBlock, st *State) (TV, bool) {
+	return f.lookupVarFromIdx(name, d0, -1, st)
+}
+
+// lookupVarFromIdx is lookupVarFrom, except that in block d0 only the
+// instructions before index idx are scanned (idx < 0: the whole block).
+func (f *Frame) lookupVarFromIdx(name string, d0 *ssa.BasicBlock, idx int, st *State) (TV, bool) {
 	cellOf := func(obj types.Object) (TV, bool) {
 		for _, r := range f.debug[name] {
 			if r.obj != obj || !r.addr {
@@ -672,7 +678,11 @@ func (f *Frame) lookupVarFrom(name string, d0 *ssa.BasicBlock, st *State) (TV, b
 		return TV{}, false
 	}
 	for d := d0; d != nil; d = d.Idom() {
-		for i := len(d.Instrs) - 1; i >= 0; i-- {
+		start := len(d.Instrs) - 1
+		if d == d0 && idx >= 0 {
+			start = idx - 1
+		}
+		for i := start; i >= 0; i-- {
 			switch in := d.Instrs[i].(type) {
 			case *ssa.Phi:
 				if in.Comment == name {
